@@ -408,6 +408,11 @@ example : ∃ l, frame true (Dev.init exC) "kbd" exLeds exShift = .ok l ∧ l[1]
   C17_pitch_class (Dev.init exC) "kbd" exLeds exShift exM (by rfl) (by decide) (("", 30), ⟨60, 0⟩) (by decide) rfl 1
     (by decide) (by refine ⟨by decide, ?_⟩; intro ch; simp [Dev.init, lit, extOn]) (by decide) (by decide)
 
+/-- the hypotheses of `C17_active` hold for key S (note 61, one octave up: pitch 73) in the example state: LED 0 is active -/
+example : ∃ l, frame true exD "kbd" exLeds exShift = .ok l ∧ l[0]? = some ⟨0, 255, 0⟩ :=
+  C17_active exD "kbd" exLeds exShift exM (by rfl) (31, (73, 0)) (by decide) 31 61 (by decide) (by decide) (by decide) 0
+    (by decide)
+
 /-- the hypotheses of `C17_action_key` hold for F1 (octave up) in the example state: `white2` at LED 2 -/
 example : ∃ l, frame true exD "kbd" exLeds exShift = .ok l ∧ l[2]? = some white2 :=
   C17_action_key exD "kbd" exLeds exShift exM (by rfl) (by decide) .octaveUp white2 (by decide) 2 (by decide) (by decide)
